@@ -211,27 +211,63 @@ def bitwiseConverted (old : Bool) (isAnd : Bool) (v1 v2 : V) : Option V :=   -- 
 def isRegexMeta (c : Nat) : Bool :=
   c = 36 || c = 40 || c = 41 || c = 46 || c = 43 || c = 42 || c = 63   -- $ ( ) . + * ?
 
-/-- `like_to_regex`, the text of the regular expression (exact, character by character) -/
-def likeToRegexGo : List Nat → (inList : Bool) → (prev : Option Nat) → (out : List Nat) → List Nat
+/-- characters that `regex::escape` prefixes with a backslash: `\ . + * ? ( ) | [ ] { } ^ $ # & - ~` -/
+def regexEscapes (c : Nat) : Bool :=
+  c = 92 || c = 46 || c = 43 || c = 42 || c = 63 || c = 40 || c = 41 || c = 124 || c = 91 || c = 93 ||
+  c = 123 || c = 125 || c = 94 || c = 36 || c = 35 || c = 38 || c = 45 || c = 126
+
+/-- `like_to_regex`, the text of the regular expression (exact, character by character).
+`esc`: the current character is escaped by a backslash that is not itself escaped. -/
+def likeToRegexGo : List Nat → (inList : Bool) → (esc : Bool) → (out : List Nat) → List Nat
+  | [], _, _, out => out
+  | c :: rest, inList, esc, out =>
+    let next : Bool := !esc && c == 92
+    if inList then
+      if c = 93 ∧ esc = false then likeToRegexGo rest false next (c :: out)
+      else if isRegexMeta c then likeToRegexGo rest true next (c :: 92 :: out)
+      else likeToRegexGo rest true next (c :: out)
+    else if esc then
+      -- `pattern.pop(); pattern.push_str(&regex::escape(c))`
+      likeToRegexGo rest false next (if regexEscapes c then c :: 92 :: out.tail else c :: out.tail)
+    else if isRegexMeta c ∨ c = 94 then likeToRegexGo rest false next (c :: 92 :: out)
+    else if c = 91 then likeToRegexGo rest true next (c :: out)
+    else if c = 37 then likeToRegexGo rest false next (42 :: 46 :: out)
+    else if c = 95 then likeToRegexGo rest false next (63 :: out)
+    else likeToRegexGo rest false next (c :: out)
+
+/-- the `escaped` flag after the last character: the pattern ends in a backslash that escapes nothing -/
+def endsEscaped : List Nat → Bool → Bool
+  | [], esc => esc
+  | c :: rest, esc => endsEscaped rest (!esc && c == 92)
+
+/-- the out list is kept reversed; a dangling backslash is doubled so that it cannot escape the `$` -/
+def likeToRegex (p : List Nat) : List Nat :=
+  let out := likeToRegexGo p false false [94]
+  (36 :: (if endsEscaped p false then 92 :: out else out)).reverse
+
+/-- `like_to_regex` BEFORE the two `fix: LIKE escape …` commits: a character counted as escaped when the
+single preceding character was a backslash (so `\\%` lost its wildcard) and an escaped regex
+meta character got a second backslash (`\.` became "backslash, any character") -/
+def likeToRegexGoOld : List Nat → (inList : Bool) → (prev : Option Nat) → (out : List Nat) → List Nat
   | [], _, _, out => out
   | c :: rest, inList, prev, out =>
     let escaped : Bool := prev == some 92
     if inList then
-      if c = 93 ∧ escaped = false then likeToRegexGo rest false (some c) (c :: out)
-      else if isRegexMeta c then likeToRegexGo rest true (some c) (c :: 92 :: out)
-      else likeToRegexGo rest true (some c) (c :: out)
-    else if isRegexMeta c ∨ c = 94 then likeToRegexGo rest false (some c) (c :: 92 :: out)
-    else if c = 91 then likeToRegexGo rest (!escaped) (some c) (c :: out)
+      if c = 93 ∧ escaped = false then likeToRegexGoOld rest false (some c) (c :: out)
+      else if isRegexMeta c then likeToRegexGoOld rest true (some c) (c :: 92 :: out)
+      else likeToRegexGoOld rest true (some c) (c :: out)
+    else if isRegexMeta c ∨ c = 94 then likeToRegexGoOld rest false (some c) (c :: 92 :: out)
+    else if c = 91 then likeToRegexGoOld rest (!escaped) (some c) (c :: out)
     else if c = 37 then
-      if escaped then likeToRegexGo rest false (some c) (c :: out)
-      else likeToRegexGo rest false (some c) (42 :: 46 :: out)
+      if escaped then likeToRegexGoOld rest false (some c) (c :: out)
+      else likeToRegexGoOld rest false (some c) (42 :: 46 :: out)
     else if c = 95 then
-      if escaped then likeToRegexGo rest false (some c) (c :: out.tail)
-      else likeToRegexGo rest false (some c) (63 :: out)
-    else likeToRegexGo rest false (some c) (c :: out)
+      if escaped then likeToRegexGoOld rest false (some c) (c :: out.tail)
+      else likeToRegexGoOld rest false (some c) (63 :: out)
+    else likeToRegexGoOld rest false (some c) (c :: out)
 
 /-- the out list is kept reversed -/
-def likeToRegex (p : List Nat) : List Nat := (36 :: likeToRegexGo p false none [94]).reverse
+def likeToRegexOld (p : List Nat) : List Nat := (36 :: likeToRegexGoOld p false none [94]).reverse
 
 inductive Atom where
   | lit (c : Nat)
@@ -369,6 +405,14 @@ def searchItems (items : List Item) : List Nat → Bool
 /-- `like_to_regex(p)` then `is_match(s)`; `none` = the pattern is outside the modelled subset -/
 def likeImpl (p s : List Nat) : Option Bool :=
   match parseRegex (likeToRegex p) with
+  | .ok true items => some (matchItems items s)
+  | .ok false items => some (searchItems items s)
+  | .error => some false
+  | .unsupported => none
+
+/-- LIKE with the translation before the escape fix (counterexample theorems only) -/
+def likeImplOld (p s : List Nat) : Option Bool :=
+  match parseRegex (likeToRegexOld p) with
   | .ok true items => some (matchItems items s)
   | .ok false items => some (searchItems items s)
   | .error => some false
